@@ -317,6 +317,12 @@ func xmlMutations(doc string) []xmlMut {
 			subst("q-equals-p", map[string]string{"q": m[1], "qPrime": mp[1]})
 		}
 		subst("tiny-safe-primes", map[string]string{"p": "7", "pPrime": "3", "q": "11", "qPrime": "5"})
+		// two genuine 512-bit safe primes whose second-highest bit is 0 (found with cmd/genlowprimes; the
+		// library's generator always sets the two top bits): their product has 1023 bits, a length no
+		// parameter set exists for, although the lengths of the primes add up to 1024
+		subst("safe-primes-with-1023-bit-product", map[string]string{
+			"p": "9571311492606360139821659900066007709438846253405567936027507847950407267125492889878220256443481164238083799565294122524633501246167862081206202732352627", "pPrime": "4785655746303180069910829950033003854719423126702783968013753923975203633562746444939110128221740582119041899782647061262316750623083931040603101366176313",
+			"q": "6939842864475019135507660749778309725166181672458106014638211096125135537119657486460620381901903488835711876486424982929522649760721668351203606709165407", "qPrime": "3469921432237509567753830374889154862583090836229053007319105548062567768559828743230310190950951744417855938243212491464761324880360834175601803354582703"})
 		subst("short-safe-primes", map[string]string{"p": "1000000000000000007883", "pPrime": "500000000000000003941", "q": "1000000000000000016063", "qPrime": "500000000000000008031"})
 	}
 	return out
